@@ -20,11 +20,13 @@ pub struct Case {
     pub disk: bool,
     /// finalize placements: bit 0 = before the first write, bit i = after the i-th write
     pub fin_mask: u32,
+    /// in-memory destinations already hold (longer) stale content, e.g. a rewound but not cleared buffer
+    pub prefill: bool,
 }
 
 impl Case {
     pub fn to_json(&self) -> Value {
-        json!({"ty": self.ty.name(), "seq": self.seq, "disk": self.disk, "fin_mask": self.fin_mask})
+        json!({"ty": self.ty.name(), "seq": self.seq, "disk": self.disk, "fin_mask": self.fin_mask, "prefill": self.prefill})
     }
     pub fn from_json(v: &Value) -> Option<Case> {
         Some(Case {
@@ -32,6 +34,7 @@ impl Case {
             seq: v.get("seq")?.as_array()?.iter().map(|x| x.as_u64().map(|u| u as usize)).collect::<Option<Vec<_>>>()?,
             disk: v.get("disk")?.as_bool()?,
             fin_mask: v.get("fin_mask").and_then(|x| x.as_u64()).unwrap_or(0) as u32,
+            prefill: v.get("prefill").and_then(|x| x.as_bool()).unwrap_or(false),
         })
     }
     fn hash(&self) -> u64 {
@@ -42,6 +45,7 @@ impl Case {
         }
         h.u64(self.disk as u64);
         h.u64(self.fin_mask as u64);
+        h.u64(self.prefill as u64);
         h.finish()
     }
 }
@@ -79,6 +83,8 @@ pub fn observe(case: &Case) -> Obs {
         let dir = super::c01_c02::scratch_dir();
         let tid: String = format!("{:?}", std::thread::current().id()).chars().filter(|c| c.is_ascii_digit()).collect();
         let path = dir.join(format!("c04-{}.shp", tid));
+        std::fs::write(&path, vec![0xEEu8; 70_000]).expect("prefill");
+        std::fs::write(path.with_extension("shx"), vec![0xEEu8; 9_000]).expect("prefill");
         {
             let mut w = ShapeWriter::from_path(&path).expect("create");
             if case.fin_mask & 1 != 0 {
@@ -96,7 +102,8 @@ pub fn observe(case: &Case) -> Obs {
         let _ = std::fs::remove_file(&path);
         let _ = std::fs::remove_file(path.with_extension("shx"));
     } else {
-        let (a, b) = (Dev::quiet(vec![]), Dev::quiet(vec![]));
+        let stale = if case.prefill { vec![0xEEu8; 6000] } else { vec![] };
+        let (a, b) = (Dev::quiet(stale.clone()), Dev::quiet(stale));
         {
             let mut w = ShapeWriter::with_shx(a.clone(), b.clone());
             if case.fin_mask & 1 != 0 {
@@ -148,7 +155,7 @@ pub fn observe(case: &Case) -> Obs {
     let mut nth_pos = vec![];
     if let Ok(mut r) = open() {
         // random access at every position (for very long files: both ends and the block boundaries)
-        let positions: Vec<usize> = if n <= 64 { (0..n + 2).collect() } else { (0..8).chain(n / 2 - 2..n / 2 + 2).chain(1020..1030.min(n)).chain(n - 4..n + 2).collect() };
+        let positions: Vec<usize> = if n <= 64 { (0..n + 2).collect() } else { (0..8).chain(n / 2 - 2..n / 2 + 2).chain(996..1004.min(n)).chain(1020..1030.min(n)).chain(2996..3004.min(n)).chain(n - 4..n + 2).collect() };
         for i in positions {
             nth_pos.push(i);
             nth.push(r.read_nth_shape(i).map(|x| x.map(|s| from_lib(&s)).map_err(|e| err_kind(&e))));
@@ -171,7 +178,18 @@ pub fn judge(case: &Case, o: &Obs) -> Vec<(String, String)> {
     let mut out = vec![];
     let tn = case.ty.name();
     let n = o.n;
-    match shx_matches_shp(&o.shp, &o.shx) {
+    // a generic Write + Seek destination cannot be truncated: with stale content behind
+    // the new files, the byte-level clauses are judged on what the headers declare
+    let (shp_view, shx_view): (&[u8], &[u8]) = if case.prefill {
+        let decl = |b: &[u8]| b.get(24..28).map(|x| i32::from_be_bytes(x.try_into().unwrap()) as i64 * 2).filter(|l| *l >= 100 && *l as usize <= b.len()).map(|l| l as usize);
+        match (decl(&o.shp), decl(&o.shx)) {
+            (Some(a), Some(b)) => (&o.shp[..a], &o.shx[..b]),
+            _ => (&o.shp[..], &o.shx[..]),
+        }
+    } else {
+        (&o.shp[..], &o.shx[..])
+    };
+    match shx_matches_shp(shp_view, shx_view) {
         Err(e) => out.push((format!("{}:bytes:{}", tn, clause_class(&e)), e)),
         Ok(df) => {
             if df.records.len() != n {
@@ -254,6 +272,7 @@ fn selftest() -> (u64, u64) {
         seq: vec![1, 0, 2],
         disk: false,
         fin_mask: 0,
+        prefill: false,
     };
     if !judge(&case, &observe(&case)).is_empty() {
         return (1, 0);
@@ -301,6 +320,7 @@ pub fn check(tier: Tier) -> i32 {
                     seq: t.clone(),
                     disk: false,
                     fin_mask: 0,
+                    prefill: false,
                 });
                 if n <= 2 || (n == 3 && t[0] == 0) {
                     cases.push(Case {
@@ -308,12 +328,16 @@ pub fn check(tier: Tier) -> i32 {
                         seq: t.clone(),
                         disk: true,
                         fin_mask: 0,
+                        prefill: false,
                     });
                 }
                 // every finalize placement around short sequences
-                if n <= 3 && t.iter().all(|i| *i < 3) {
+                if (n <= 3 && t.iter().all(|i| *i < 3)) || t.iter().all(|i| *i < 2) {
                     for mask in 1u32..(1 << (n + 1)) {
-                        cases.push(Case { ty, seq: t.clone(), disk: n <= 1, fin_mask: mask });
+                        cases.push(Case { ty, seq: t.clone(), disk: n <= 1, fin_mask: mask, prefill: false });
+                        if n >= 1 && n <= 2 {
+                            cases.push(Case { ty, seq: t.clone(), disk: false, fin_mask: mask, prefill: true });
+                        }
                     }
                 }
             }
@@ -322,13 +346,21 @@ pub fn check(tier: Tier) -> i32 {
     // record-count ladder around powers of two
     for ty in [Ty::Point, Ty::MultipointM, Ty::PolylineZ] {
         let k = reduced_set(ty).len();
-        for n in [255usize, 256, 257, 1023, 1024, 1025, 2049] {
-            cases.push(Case { ty, seq: (0..n).map(|i| (i * 7 + i / 3) % k).collect(), disk: n == 1025, fin_mask: if n == 1025 { 1 << 20 } else { 0 } });
+        for n in COUNT_LADDER {
+            cases.push(Case { ty, seq: (0..n).map(|i| (i * 7 + i / 3) % k).collect(), disk: n == 1025, fin_mask: if n == 1025 { 1 << 20 } else { 0 }, prefill: false });
         }
     }
-    let nblocks = (cases.len() + 63) / 64;
+    // every record count up to the bound (no count class is skipped)
+    for ty in [Ty::Point, Ty::MultipointM] {
+        let k = reduced_set(ty).len();
+        for n in 5..=tier.pick(1100usize, 2100) {
+            cases.push(Case { ty, seq: (0..n).map(|i| (i * 7 + i / 3) % k).collect(), disk: false, fin_mask: 0, prefill: false });
+        }
+    }
+    // interleave so that the long files are spread over the blocks
+    let nblocks = 256usize.min(cases.len());
     let (agg, capped) = par_blocks(nblocks, None, |b, ctx, tick| {
-        for c in &cases[b * 64..((b + 1) * 64).min(cases.len())] {
+        for c in cases.iter().skip(b).step_by(nblocks) {
             run_case(c, ctx);
             tick();
         }
